@@ -784,6 +784,14 @@ class Gen:
         if k == 'neg':
             t, ty = self.ex(e[1], env, want)
             return f'(-{t})', ty
+        if k == 'as' and e[2] == 'usize' and self.generic and e[1][0] != 'lit' and not self.is_lit_var(e[1], env):
+            # a word used as a limb index / count (`(shift / Limb::BITS) as usize`): its value as a `Nat`
+            t, ty = self.ex(e[1], env)
+            if ty == 'nat':
+                return t, 'nat'
+            if not isinstance(ty, int) or ty > 64:
+                raise Unsupported('cast of ' + str(ty) + ' to usize')
+            return f'({t}).toNat', 'nat'
         if k == 'as':
             tgt = ty_of(e[2], self.self_ty)
             if not isinstance(tgt, int):
@@ -848,7 +856,7 @@ class Gen:
                 return f'(decide ({a} {lop} {b}))', 'bool'
             if op in ('&&', '||'):
                 return f'({a} {op} {b})', 'bool'
-            lop = {'&': '&&&', '|': '|||', '^': '^^^', '+': '+', '-': '-', '*': '*'}.get(op)
+            lop = {'&': '&&&', '|': '|||', '^': '^^^', '+': '+', '-': '-', '*': '*', '/': '/', '%': '%'}.get(op)
             if lop is None or ta == 'bool' or not isinstance(ta, int):
                 raise Unsupported('operator ' + op)
             return f'({a} {lop} {b})', ta
@@ -905,6 +913,19 @@ class Gen:
                 if ty != 'uint':
                     raise Unsupported('Uint::new of ' + str(ty))
                 return t, 'uint'
+            if len(p) == 2 and p[0] == 'ConstCtOption' and p[1] in ('some', 'none', 'new'):
+                # a `ConstCtOption<T>` is the pair (value, is_some mask)
+                if len(e[2]) != (2 if p[1] == 'new' else 1):
+                    raise Unsupported('ConstCtOption arity')
+                wv = want[0] if isinstance(want, tuple) and len(want) == 2 else None
+                v, tv = self.ex(e[2][0], env, wv)
+                if p[1] == 'new':
+                    c, tc = self.ex(e[2][1], env, 'choice')
+                    if tc != 'choice':
+                        raise Unsupported('ConstCtOption::new with a non-choice')
+                else:
+                    c = '(~~~0#64)' if p[1] == 'some' else '0#64'
+                return f'({v}, {c})', (tv, 'choice')
             if len(p) == 2 and p[0] == 'Limb' and self.self_ty != 'Limb':
                 return self.call(p[1], e[2], env, 'limb')
             if len(p) == 2 and p[0] == 'Uint' and self.self_ty != 'Uint':
@@ -1067,6 +1088,10 @@ class Gen:
         if (cond[0] == 'bin' and cond[1] == '<' and cond[2][0] == 'var' and cond[2][1] in self.cenv
                 and env.get(cond[2][1], (None, None))[1] == 'lit'):
             return self.emit_loop_up(cond, body, env, lines)
+        # (3b) the same with a `usize` variable as start value (`let mut i = shift_num; while i < LIMBS { .. }`)
+        if (cond[0] == 'bin' and cond[1] == '<' and cond[2][0] == 'var' and cond[2][1] not in self.cenv
+                and env.get(cond[2][1], (None, None))[1] == 'nat' and self.generic and cond[2][1] != self.generic):
+            return self.emit_loop_up(cond, body, env, lines)
         # (2) `while i > 0 { i -= 1; .. }`: structural recursion on i.toNat
         if not (cond[0] == 'bin' and cond[1] == '>' and cond[2][0] == 'var' and cond[3][0] == 'lit' and cond[3][1] == 0):
             raise Unsupported('loop form')
@@ -1218,7 +1243,7 @@ class Gen:
         other outer variables it reads; both in the order of their declaration in the function.
         An untyped state variable (`let mut carry = 1;`) gets the one integer width that type-checks the body."""
         i = cond[2][1]
-        start = self.cenv[i]
+        start = self.cenv[i] if i in self.cenv else atom(env[i][0])       # a literal, or (3b) a `Nat` term
         if not body or not (body[-1][0] == 'assign' and body[-1][1] == i and body[-1][2] == '+='
                             and body[-1][3][0] == 'lit' and body[-1][3][1] >= 1):
             raise Unsupported('loop form: the body must end with the increment of the counter')
